@@ -1571,6 +1571,17 @@ static void cmd_shutwr (int argc, char **argv)
   drain_all (&out);
 }
 
+/* SHUTRD <c> [nopump] : the client stops reading for good (shutdown(SHUT_RD)); what the bus writes to it from now on fails */
+static void cmd_shutrd (int argc, char **argv)
+{
+  int c = argc > 1 ? atoi (argv[1]) : -1;
+  if (c < 0 || c >= nclients || !clients[c].open) { ob_puts (&out, "ERR badclient"); return; }
+  shutdown (clients[c].fd, SHUT_RD);
+  if (argc > 2 && !strcmp (argv[2], "nopump")) { ob_puts (&out, "OK it=0"); return; }
+  ob_printf (&out, "OK it=%ld", pump (pump_budget));
+  drain_all (&out);
+}
+
 static void cmd_advance (int argc, char **argv)
 {
   long it;
@@ -1704,6 +1715,7 @@ int main (int argc, char **argv)
       else if (!strcmp (args[0], "RECV")) cmd_recv (n, args);
       else if (!strcmp (args[0], "CLOSE")) cmd_close (n, args);
       else if (!strcmp (args[0], "SHUTWR")) cmd_shutwr (n, args);
+      else if (!strcmp (args[0], "SHUTRD")) cmd_shutrd (n, args);
       else if (!strcmp (args[0], "ADVANCE")) cmd_advance (n, args);
       else if (!strcmp (args[0], "DUMP")) cmd_dump ();
       else if (!strcmp (args[0], "MKFD")) cmd_mkfd (n, args);
